@@ -1292,3 +1292,182 @@ def _z3tactic(ex, args, kwargs, node):
     v = VOpaque("z3 tactic")
     v.kind = "tactic"
     return v
+
+
+# ---------------------------------------------------------------------------
+# TB-antlr (stream level): a CommonTokenStream is the list `toks` of the types of its on-channel tokens -- the last one is
+# EOF and no earlier one is -- and a position `pos`.  LA(1) is the type at the position, LT(1) that token (opaque),
+# consume() advances by one and raises IllegalStateException at EOF (antlr4/BufferedTokenStream.py).
+# ---------------------------------------------------------------------------
+TOKEN_EOF = -1
+constants["antlr4.Token.EOF"] = VInt(TOKEN_EOF)
+constants["antlr4.Token.Token.EOF"] = VInt(TOKEN_EOF)
+STREAM_MODS = {("CommonTokenStream", "consume"): ["pos"]}
+
+
+def stream_wf(toks, pos):
+    p = z3.Int("_ts_p")
+    n = L.LInt.len(toks)
+    return [
+        n >= 1,
+        0 <= pos,
+        pos < n,
+        L.LInt.at(toks, n - 1) == TOKEN_EOF,
+        L.Forall([p], [L.LInt.at(toks, p)], z3.Implies(z3.And(0 <= p, p < n - 1), L.LInt.at(toks, p) != TOKEN_EOF), "stream.eof.last"),
+    ]
+
+
+def _stream(ex, s):
+    rec = ex.st.obj(s.ref)
+    return rec["fields"]["toks"], rec["fields"]["pos"]
+
+
+@meth("CommonTokenStream", "LA", tb="TB-antlr")
+def _ts_la(ex, s, args, kwargs, node):
+    toks, pos = _stream(ex, s)
+    if len(args) != 1 or not (isinstance(args[0], VInt) and z3.is_int_value(z3.simplify(args[0].t)) and z3.simplify(args[0].t).as_long() == 1):
+        raise Unsupported("LA(k) for k != 1")
+    return VInt(L.LInt.at(toks.t, pos.t))
+
+
+@meth("CommonTokenStream", "LT", tb="TB-antlr")
+def _ts_lt(ex, s, args, kwargs, node):
+    return VOpaque("token")
+
+
+@meth("CommonTokenStream", "consume", tb="TB-antlr")
+def _ts_consume(ex, s, args, kwargs, node):
+    toks, pos = _stream(ex, s)
+    ex.oblige("noraise.consume_eof", node, L.LInt.at(toks.t, pos.t) != TOKEN_EOF)  # IllegalStateException("cannot consume EOF")
+    ex.st.set_field(s.ref, "pos", VInt(pos.t + 1))
+    return VNone()
+
+
+def _parser_const(name):
+    """a token-type constant of the generated parser, read from the real file on every run"""
+    import os
+    import re
+
+    src = open(os.path.join(os.environ.get("INFOCF_REPO", "/repo"), "parser", "CKBParser.py")).read()
+    m = re.search(rf"^\s+{name}\s*=\s*(\d+)\s*$", src, re.M)
+    if not m:
+        raise Unsupported(f"shape mismatch: CKBParser.{name} not found")
+    return int(m.group(1))
+
+
+TOKEN_NEWLINE = _parser_const("NEWLINE")
+constants["parser.CKBParser:CKBParser.NEWLINE"] = VInt(TOKEN_NEWLINE)
+
+
+# ---------------------------------------------------------------------------
+# TB-antlr (recogniser level): lexer and parser objects with their error listeners.  ANTLR reports every lexical /
+# syntax error to the registered listeners and then RECOVERS (skips or invents tokens) and carries on; only a listener
+# that raises turns an error into a rejection.  Ghost predicates: LexClean(toks) -- no lexical error was reported while
+# these tokens were produced; ParseClean(tree) -- no syntax error was reported while this tree was built.  A start rule
+# that returns normally has these properties exactly for the recognisers whose only listener is a raising one.
+# ---------------------------------------------------------------------------
+LexOf = z3.Function("LexOf", StrSort, L.LInt.sort)
+LexClean = z3.Function("LexClean", L.LInt.sort, L.Bool)
+ParseClean = z3.Function("ParseClean", Ctx, L.Bool)
+StartPos = z3.Function("ParseStop", Ctx, L.Int)  # the stream position at which the start rule stopped
+TLexer = TObj("CKBLexer", {"default_listeners": TBool, "throwing": TBool})
+TParser = TObj("CKBParser", {"default_listeners": TBool, "throwing": TBool})
+TTokenStream = TObj("CommonTokenStream", {"toks": TList(TInt), "pos": TInt})
+TVisitor = TObj("myVisitor", {"sigcheck": TList(TStr), "signature": TOpaque})
+
+
+@fn("antlr4.InputStream", tb="TB-antlr")
+def _input_stream(ex, args, kwargs, node):
+    (s,) = args
+    if not isinstance(s, VStr):
+        raise Unsupported("InputStream of a non-string")
+    v = VOpaque("InputStream")
+    v.kind = "input_stream"
+    v.src = s
+    return v
+
+
+@fn("parser.Wrappers:_ThrowingErrorListener", tb="TB-antlr")
+def _throwing_listener(ex, args, kwargs, node):
+    # its syntaxError never returns normally: contract parser.Wrappers:_ThrowingErrorListener.syntaxError (proved)
+    v = VOpaque("listener")
+    v.kind = "throwing_listener"
+    return v
+
+
+@fn("parser.CKBLexer:CKBLexer", tb="TB-antlr")
+def _lexer(ex, args, kwargs, node):
+    (s,) = args
+    if getattr(s, "kind", None) != "input_stream":
+        raise Unsupported("CKBLexer of something else than an InputStream")
+    ref = ex.st.alloc({"kind": "obj", "cls": "CKBLexer", "fields": {"default_listeners": VBool(True), "throwing": VBool(False)}, "src": s.src})
+    return VRef(ref, TLexer)
+
+
+@fn("antlr4.CommonTokenStream", tb="TB-antlr")
+def _token_stream(ex, args, kwargs, node):
+    (lx,) = args
+    if not (isinstance(lx, VRef) and ex.st.obj(lx.ref).get("cls") == "CKBLexer"):
+        raise Unsupported("CommonTokenStream of something else than a lexer")
+    toks = VList(LexOf(ex.st.obj(lx.ref)["src"].t), TInt)
+    ex.st.assume(stream_wf(toks.t, z3.IntVal(0)))
+    ref = ex.st.alloc({"kind": "obj", "cls": "CommonTokenStream", "fields": {"toks": toks, "pos": VInt(0)}, "lexer": lx.ref})
+    return VRef(ref, TTokenStream)
+
+
+@fn("parser.CKBParser:CKBParser", tb="TB-antlr")
+def _parser(ex, args, kwargs, node):
+    (ts,) = args
+    if not (isinstance(ts, VRef) and ex.st.obj(ts.ref).get("cls") == "CommonTokenStream"):
+        raise Unsupported("CKBParser of something else than a token stream")
+    ref = ex.st.alloc({"kind": "obj", "cls": "CKBParser", "fields": {"default_listeners": VBool(True), "throwing": VBool(False)}, "stream": ts.ref})
+    return VRef(ref, TParser)
+
+
+@meth("CKBLexer", "removeErrorListeners", tb="TB-antlr")
+@meth("CKBParser", "removeErrorListeners", tb="TB-antlr")
+def _remove_listeners(ex, o, args, kwargs, node):
+    ex.st.set_field(o.ref, "default_listeners", VBool(False))
+    ex.st.set_field(o.ref, "throwing", VBool(False))
+    return VNone()
+
+
+@meth("CKBLexer", "addErrorListener", tb="TB-antlr")
+@meth("CKBParser", "addErrorListener", tb="TB-antlr")
+def _add_listener(ex, o, args, kwargs, node):
+    (l,) = args
+    if getattr(l, "kind", None) != "throwing_listener":
+        raise Unsupported("addErrorListener of an unknown listener")
+    ex.st.set_field(o.ref, "throwing", VBool(True))
+    return VNone()
+
+
+def _start_rule(ex, p, args, kwargs, node):
+    """parser.<start rule>(): may raise only through a raising listener; otherwise returns a tree, the stream has moved
+    forward to where the rule stopped, and no error was reported to a recogniser whose listeners include a raising one"""
+    prec = ex.st.obj(p.ref)
+    sref = prec["stream"]
+    srec = ex.st.obj(sref)
+    lrec = ex.st.obj(srec["lexer"])
+    toks, pos = srec["fields"]["toks"], srec["fields"]["pos"]
+    may = z3.Or(prec["fields"]["throwing"].t, lrec["fields"]["throwing"].t)
+    if not z3.is_false(z3.simplify(may)):
+        _may_raise(ex, node, "Exception")
+    tree = VCtx(ex.st.fresh_const("tree", Ctx))
+    npos = StartPos(tree.t)
+    ex.st.assume([pos.t <= npos, npos < L.LInt.len(toks.t)])
+    ex.st.assume(z3.Implies(lrec["fields"]["throwing"].t, LexClean(toks.t)))
+    ex.st.assume(z3.Implies(prec["fields"]["throwing"].t, ParseClean(tree.t)))
+    ex.st.set_field(sref, "pos", VInt(npos))
+    return tree
+
+
+methods[("CKBParser", "formula")] = lambda ex, p, a, k, n: _start_rule(ex, p, a, k, n)
+methods[("CKBParser", "ckbs")] = lambda ex, p, a, k, n: _start_rule(ex, p, a, k, n)
+
+
+@fn("parser.myVisitor:myVisitor", tb="TB-antlr")
+def _new_visitor(ex, args, kwargs, node):
+    if args or kwargs:
+        raise Unsupported("myVisitor(...) with arguments")
+    return TVisitor.fresh("visitor", ex.st)
